@@ -211,6 +211,11 @@ def builtinArity (t : String) : Nat × Bool :=
   else if t == "PRINT" || t == "LOG" || t == "ERROR" then (1, true)
   else (1, false)
 
+/-- the name recorded with an in-place append hazard: the identifier on the left of the `+`, if it is one -/
+def hazardBase : Node → String
+  | .ident n => n
+  | _ => ""
+
 mutual
 
 /-- `(*State).Eval`: depth guard, unwrap return values and one reference level -/
@@ -261,8 +266,9 @@ def evalI : Nat → Node → M Obj
           if let .str _ := left then if r.tokType == "LPAREN" then stop (.unmodelled "pipe")
         let right ← eval fuel r
         if right.isError then return right
-        if let .array l := left then
-          noteHazard (op == "PLUS" && l.length > (← get).cfg.maxSmallArray) "large-array-append-shares-capacity" ""
+        if let .array els := left then
+          noteHazard (op == "PLUS" && els.length > (← get).cfg.maxSmallArray) "large-array-append-shares-capacity"
+            (hazardBase l)
         evalInfixOp op left right
     | .int v => pure (.int v)
     | .float b => pure (.float b)
